@@ -50,6 +50,14 @@ def corrupt(text, t):
     kind = t.weighted([("truncate", 4), ("flip", 4), ("dup", 1), ("drop", 1.5), ("token", 2), ("torn", 1), ("number", 1.5)])
     if n == 0:
         return text, {"kind": "none"}
+    if "usepulses" in text and t.chance(0.12):
+        # relative / absolute confusion in a pulse import
+        i = text.find("from .")
+        if i >= 0:
+            return text[: i + 5] + text[i + 6 :], {"kind": "import-undot", "at": i + 5}
+        i = text.find("from ")
+        if i >= 0:
+            return text[: i + 5] + "." + text[i + 5 :], {"kind": "import-dot", "at": i + 5}
     if kind == "number":
         import re as _re
 
